@@ -56,6 +56,17 @@ class PathDeleteError(PathAssignError):
                 % (self.dest_name, self.path, self.exc))
 
 
+def _scope_path(path):
+    """the steps of an S-rooted path, from T: to be applied to the scope
+    mapping, where S.name is spelled ['name']"""
+    t = T
+    for i, (op, arg) in enumerate(path.items()):
+        if i == 0 and op in '.P':
+            op = '['
+        t = _t_child(t, op, arg)
+    return Path(t)
+
+
 def _apply_for_each(func, path, val):
     layers = path.path_t.__stars__()
     if layers:
@@ -164,9 +175,13 @@ class Assign:
         op, arg, path = self.op, self.arg, self.path
         # (a T or Spec as the last index is evaluated, like in any other step)
         arg = arg_val(target, arg, scope)
+        orig_path = self._orig_path
         if self.path.startswith(S):
             dest_target = scope[UP]
-            dest_path = self.path.from_t()
+            orig_path = _scope_path(orig_path)
+            dest_path = orig_path[:-1]
+            if not len(dest_path):
+                op = orig_path.items()[0][0]
         else:
             dest_target = target
             dest_path = self.path
@@ -179,7 +194,7 @@ class Assign:
                 raise
 
             # the rest of the path applies to the object being built, not to the scope
-            remaining_path = self._orig_path.from_t()[pae.part_idx + 1:]
+            remaining_path = orig_path.from_t()[pae.part_idx + 1:]
             # (its T / Spec arguments are about the target, not the object being built)
             remaining_t = T
             for r_op, r_arg in remaining_path.items():
@@ -192,9 +207,9 @@ class Assign:
             # val is already evaluated: Val() keeps it from being evaluated (and copied) again
             val = scope[glom](self.missing(), Assign(remaining_path, Val(val), missing=self.missing), scope)
 
-            op, arg = self._orig_path.items()[pae.part_idx]
+            op, arg = orig_path.items()[pae.part_idx]
             arg = arg_val(target, arg, scope)
-            path = self._orig_path[:pae.part_idx]
+            path = orig_path[:pae.part_idx]
             dest = scope[glom](dest_target, path, scope)
 
         # TODO: forward-detect immutable dest?
@@ -344,7 +359,10 @@ class Delete:
         arg = arg_val(target, arg, scope)
         if self.path.startswith(S):
             dest_target = scope[UP]
-            dest_path = self.path.from_t()
+            dest_path = _scope_path(self._orig_path)
+            if len(dest_path) == 1:
+                op = dest_path.items()[0][0]
+            dest_path = dest_path[:-1]
         else:
             dest_target = target
             dest_path = self.path
